@@ -98,7 +98,8 @@ def lock_spec(prop, tier):
         return (lr(fam("p2x1", "conv2", "p2x2", locks=MCS), -1, **T)
                 + lr(fam("p3x1", locks=MCS), 4, **T)
                 + lr(fam("conv3", "fifo4", locks=MCS), 3, **T)
-                + lr(fam("p3x2", "p4x1", locks=MCS), 2, **T))
+                + lr(fam("p3x2", "p4x1", locks=MCS), 2, **T)
+                + lr(fam("p4s", locks=MCS), 3, **T))
     if prop == "C12":
         if q:
             return (lr(fam("p1", "p2x1", "conv2", "guards2", locks=MCS), -1)
